@@ -58,9 +58,12 @@ def children_cpu():
     return r.ru_utime + r.ru_stime
 
 
-def stopped_by_wall_clock(cpu_before, ms, stage):
-    """after a solver subprocess reported `timeout`: True if it was stopped by the wall clock without having received its
-    CPU budget (machine too busy: no verdict), False if it used its CPU budget up (a reproducible `budget exhausted`)"""
+def stopped_by_wall_clock(cpu_before, ms, stage, t0=None):
+    """after a solver subprocess stopped without an answer: True only if the wall-clock limit had (nearly) elapsed and the
+    process had not received its CPU budget (machine too busy: no verdict); an exhausted resource limit or CPU cap is a
+    reproducible `budget exhausted`"""
+    if t0 is not None and (time.time() - t0) * 1000 < wall_ms(ms, stage) * 0.9:
+        return False
     return (children_cpu() - cpu_before) < cpu_s(ms, stage) * 0.9
 
 
@@ -124,10 +127,10 @@ def inproc_check(solver, ms, stage):
             why = solver.reason_unknown()
         except Exception:  # noqa
             pass
-        if "resource" not in why and ("timeout" in why or "cancel" in why or dt * 1000 >= wall * 0.95):
-            # the wall-clock limit stopped the query: a verdict (`budget exhausted`) only if the query really received
-            # its CPU budget; otherwise the machine was too busy and nothing is concluded
-            if cpu < cpu_s(ms, stage) * 0.9:
-                wall_hit(stage)
+        if dt * 1000 >= wall * 0.95 and cpu < cpu_s(ms, stage) * 0.9:
+            # only the wall-clock limit can have stopped the query (z3 reports `canceled` for an exhausted resource limit
+            # as well, so the reason text is not used), and it did so before the query received its CPU budget: the
+            # machine was too busy and nothing is concluded
+            wall_hit(stage)
     log(stage, str(r), used, dt, lim)
     return r
